@@ -203,7 +203,17 @@ def render(case, idx, rng):
                 t, h = opt_text(it, {"me": "%d_%s_%d" % (idx, key, k), "self": name, "derive": d, "g": g})
                 vo.append(t)
             st = case["v1style"] if key == "v1" else "unit"
-            sfx = {"unit": "", "newtype": "(%s)" % STRING, "struct": " { %s: %s, #[darling(default)] %s: u8 }" % (pool[3], STRING, pool[4]),
+            # the field of a struct variant carries the options the specification put on it
+            vfo = []
+            if st == "struct" and key == "v1":
+                for k, it in enumerate(case.get("f1", [])):
+                    t, h = opt_text(it, {"me": "%d_vf_%d" % (idx, k), "ft": STRING, "src": STRING, "dt": STRING, "self": name, "derive": d, "g": g})
+                    if it["name"] in ("flatten", "multiple"):
+                        return None           # would need another field type; covered by the struct receivers
+                    vfo.append(t)
+                    helpers += h
+            vfa = ("#[darling(%s)] " % ", ".join(vfo)) if vfo else ""
+            sfx = {"unit": "", "newtype": "(%s)" % STRING, "struct": " { %s%s: %s, #[darling(default)] %s: u8 }" % (vfa, pool[3], STRING, pool[4]),
                    "tuple2": "(%s, u8)" % STRING, "tuple0": "()", "struct0": " {}"}[st]
             vs.append("    %s%s%s," % (("#[darling(%s)] " % ", ".join(vo)) if vo else "", vn[vi], sfx))
         if generic:
